@@ -195,6 +195,9 @@ var validSnippets = []string{
 	"goto fin; local q = 1; ::fin:: ::fin2::",
 	"return 0x7fffffffffffffff, 0x8000000000000000, 0xffffffffffffffff, 0x10000000000000000, 0xabcdefABCDEF0123456789",
 	"return 1e308, 1e309, 10e500, 1e-400, 123456789012345678901234567890",
+	// constant expressions the compiler may fold: division and modulo by zero, overflow, NaN
+	"return 7 % 0, 2^10 % -0, 10 % (3 - 3), 5 % 0.5, -7 % 3, 7 % -3, 1 / 0, -1 / 0, 0 / 0, 2^1024, 1e308 * 10, (1 / 0) - (1 / 0), -(0 / 0)",
+	"if false then local x = 1 % 0 end local y = 8 % (2 - 2) return 3 - 2 ^ 2 ^ 3, 2 ^ -1, -2 ^ 2, not 1 == 2, 1 .. 2",
 	"do do goto inner; local u = 1; ::inner:: ::inner2:: end goto outer; local v = 2; ::outer:: ::outer2:: end return 5",
 }
 
